@@ -1,6 +1,7 @@
 """C06 — a compiled query can be run from many goroutines at once (docs/C06.md).
 Coq: ownership discipline (code_readonly, runs_commute).  Observer: -race harness as a write detector."""
 import concurrent.futures
+import threading
 import json
 import os
 import re
@@ -25,24 +26,38 @@ CANON = [
 def build_race_harness():
     """go build -race of harness/c06 against the CURRENT /repo tree (Go's build cache makes the unchanged
     case cheap and rebuilds whenever a source file of /repo or of the harness changed)."""
-    exe0, log0 = V.build_harness("c06")   # writes go.mod/go.sum for REPO; plain build as a by-product
     h = os.path.join(V.ROOT, "harness")
+    log0 = ""
+    # same module file as lib/verif.py build_harness (github.com/itchyny/gojq => REPO)
+    shutil.copy(os.path.join(V.REPO, "go.sum"), os.path.join(h, "go.sum"))
+    gomod = ("module verifharness\n\ngo 1.24.0\n\nrequire github.com/itchyny/gojq v0.0.0\n\n"
+             "replace github.com/itchyny/gojq => %s\n" % V.REPO)
+    p = os.path.join(h, "go.mod")
+    if not os.path.exists(p) or open(p).read() != gomod:
+        open(p, "w").write(gomod)
     exe = os.path.join(V.BUILD, "harness-c06-race")
     rc, out = V.sh(["go", "build", "-race", "-tags", "verif", "-o", exe, "./c06"], cwd=h, env=V.go_env(), timeout=1200)
     return (exe if rc == 0 else None), log0 + out
 
 
 def split_reports(text):
-    """race reports and fatal errors in one stderr chunk -> list of dict(kind, writers, text)"""
+    """race reports and fatal errors in one stderr chunk -> list of dict(kind, writers, text);
+    an access is attributed to its innermost frame inside package gojq (runtime.mapassign etc. skipped)"""
     out = []
     for rep in re.findall(r"(?s)WARNING: DATA RACE\n.*?(?:==================|\Z)", text):
         writers, readers = [], []
-        for m in re.finditer(r"(?m)^(Previous write|Write|Previous read|Read|Previous atomic write|Atomic write|"
-                             r"Previous atomic read|Atomic read) at \S+ by [^\n]*\n\s+(\S+)\(\)", rep):
-            (writers if "rite" in m.group(1) else readers).append(m.group(2))
+        for blk in re.split(r"\n\s*\n", rep):
+            m = re.match(r"\s*(?:WARNING: DATA RACE\n)?\s*(Previous write|Write|Previous read|Read|Previous atomic write|"
+                         r"Atomic write|Previous atomic read|Atomic read) at \S+ by [^\n]*\n", blk)
+            if not m:
+                continue
+            frames = re.findall(r"(?m)^\s+(\S+)\(\)\s*$", blk)
+            fn = next((f for f in frames if f.startswith("github.com/itchyny/gojq.")), frames[0] if frames else "?")
+            (writers if "rite" in m.group(1) else readers).append(fn)
         out.append(dict(kind="race", writers=writers, readers=readers, text=rep))
     for m in re.finditer(r"(?s)fatal error: ([^\n]*)\n(.*)", text):
-        out.append(dict(kind="fatal", what=m.group(1), writers=[], readers=[], text=m.group(0)[:6000]))
+        out.append(dict(kind="fatal", what=m.group(1), writers=[], readers=[], text=m.group(0)[:6000],
+                        de="gojq.deleteEmpty" in text and "concurrent map" in text))
         break
     for m in re.finditer(r"(?s)^panic: ([^\n]*)\n(.*)", text, flags=re.M):
         out.append(dict(kind="panic", what=m.group(1), writers=[], readers=[], text=m.group(0)[:6000]))
@@ -51,10 +66,14 @@ def split_reports(text):
 
 
 def in_delete_empty_family(rep):
+    """the report is explained by deleteEmpty's writes: some write access has gojq.deleteEmpty as its innermost
+    gojq frame and no write access has another gojq function there (blocks garbled by interleaved output of
+    the runtime's fatal-error dump are ignored)"""
     if rep["kind"] == "race":
-        return bool(rep["writers"]) and all(w.endswith("gojq.deleteEmpty") for w in rep["writers"])
+        gw = [w for w in rep["writers"] if w.startswith("github.com/itchyny/gojq.")]
+        return bool(gw) and all(w.endswith("gojq.deleteEmpty") for w in gw)
     if rep["kind"] == "fatal":
-        return rep["what"].startswith("concurrent map") and "gojq.deleteEmpty" in rep["text"]
+        return bool(rep.get("de"))
     return False
 
 
@@ -69,18 +88,29 @@ def race_stream(c, tier, seed, replay_case=None):
     if replay_case:
         r = U.drive(exe, "race", ["replay=" + replay_case], env=env, timeout=300)
         return [r]
-    n = 250 if tier == "quick" else 6000
-    reps = 10 if tier == "quick" else 40
+    n = 120 if tier == "quick" else 6000
+    reps = 8 if tier == "quick" else 40
     corpus = U.corpus_jobs()
     if tier == "quick":
-        corpus = corpus[seed % 3::3]
+        corpus = corpus[seed % 4::4]
     jp = U.write_jobs("c06_corpus.json", corpus)
     cp = U.write_jobs("c06_canon.json", CANON)
     args = ["-seed", str(seed), "-n", str(n), "-tier", tier, "jobs=" + jp, "G=%d" % G, "R=%d" % reps]
 
     def one(i):
         if i < 0:
-            return U.drive(exe, "race", ["-n", "-2", "jobs=" + cp, "G=%d" % G, "R=200"], env=env, timeout=300)
+            # the canonical cases are repeated until they show (detection needs an actual overlap in time)
+            acc = dict(records=[], crashes=[], stderr={}, timed_out=False)
+            for attempt in range(5):
+                r = U.drive(exe, "race", ["-n", "-2", "jobs=" + cp, "G=%d" % G, "R=250"], env=env, timeout=300)
+                acc["records"] += r["records"]
+                acc["crashes"] += r["crashes"]
+                for k, v in r["stderr"].items():
+                    acc["stderr"][k] = acc["stderr"].get(k, "") + v
+                if all(any(k.startswith("%d." % j) and split_reports(v) for k, v in acc["stderr"].items())
+                       for j in range(len(CANON))):
+                    break
+            return acc
         return U.drive(exe, "race", args + ["shard=%d/%d" % (i, NSHARD)], env=env,
                        timeout=400 if tier == "quick" else 3000, max_restarts=400)
     with concurrent.futures.ThreadPoolExecutor(NSHARD + 1) as ex:
@@ -142,8 +172,13 @@ def run(tier, seed):
         "schedules that actually occurred",
         "regexp compilation is a pure function of (pattern, flags): sharing the sync.Map cache cannot change results",
     ]
+    # the race observer needs no Coq: it runs while the proofs are checked
+    box = {}
+    th = threading.Thread(target=lambda: box.update(rs=race_stream(c, tier, seed)))
+    th.start()
     c.prove(PROPS)
-    rs = race_stream(c, tier, seed)
+    th.join()
+    rs = box.get("rs")
     if rs is None:
         return c.finish("none")
     fails, nres, statuses = judge(c, rs)
